@@ -399,8 +399,13 @@ func genC04(d *Draw) Case {
 				tags["xpath"] = true
 			}
 			vars[v] = val
+			if d.N(8) == 7 {
+				// an informal expression (no xsi:type): not executable, the flow counts as true
+				c.Informal = true
+				tags["informal-expression"] = true
+			}
 			g.connect(defs, "X", b.ID, c, -1)
-			desc = append(desc, fmt.Sprintf("%s=%v", v, val == want))
+			desc = append(desc, fmt.Sprintf("%s=%v", v, c.Informal || val == want))
 		}
 		g.connect(defs, b.ID, e.ID, nil, -1)
 	}
@@ -450,6 +455,7 @@ func checkC04(cc Case, r *simrt.Result) *Outcome {
 	probe(o, "concurrent-tokens", c.Meta["k"] > 1)
 	probe(o, "no-effective-flow", len(tg.M.Errors) > 0)
 	probe(o, "xpath", hasTag(c.Prog.Tags, "xpath"))
+	probe(o, "informal-expression", hasTag(c.Prog.Tags, "informal-expression"))
 	o.Sample = map[string]any{"program": c.Prog.Desc, "vars": c.Prog.Vars, "buf": c.Buf, "hold": c.Hold, "requests": tg.Requests, "tags": c.Prog.Tags}
 	return o
 }
